@@ -1,5 +1,5 @@
 SPECIFICATION Spec
-CONSTANTS Lines <- LinesDup  Prog <- ProgDup  BpSets <- BpsDup  MaxReq = 3  Deviations <- NoDev  Fuel = 20
+CONSTANTS LibLines <- NoLib  Lines <- LinesDup  Prog <- ProgDup  BpSets <- BpsDup  MaxReq = 3  Deviations <- NoDev  Fuel = 20
 INVARIANT TypeOK
 INVARIANT StoppedIsHalted
 INVARIANT NoSkippedBreakpoint
